@@ -199,7 +199,8 @@ CHECKS.update({
              "build with real goroutines; the same for n-fold repetitions of 34 openers (incl. nested closures that use names they do not declare and postfix chains f()()().., a(1)(1).., a.m().m()..) up to 64 KiB and for every valid <= 3-token program padded to 64 KiB with "
              "blanks and comments; also every string of <= 4 (<= 5) symbols over a 22-symbol alphabet with one rune of every Unicode class the scanner's predicates "
              "tell apart (No, Nl, Nd of other scripts, letters, symbols, Zs/Zl, Mn, Cf), and 2478 constant expressions whose folding may fail (17 binary operators x "
-             "12 x 12 constant operands, 30 unary/index/method forms) at each of 42 syntactic positions, and 8 programs whose constant part recurses without end. A case fails if it panics (recover), kills the process (journaled re-run), does not return (CPU/wall watchdog) or, for the 64 KiB "
+             "12 x 12 constant operands, 30 unary/index/method forms) at each of 42 syntactic positions, 8 programs whose constant part recurses without end, 10 whose constant part panics on goroutines of multiUse/merge, and every sequence of <= 4 (<= 5) tokens on "
+             "Generate of funcGen.New[float64] / New[bool] configured like example/minimal.go and example/bool.go (none of the optional handlers). A case fails if it panics (recover), kills the process (journaled re-run), does not return (CPU/wall watchdog) or, for the 64 KiB "
              "families, grows more than 8x in CPU time when the input doubles. Exhaustive within those bounds (14 M calls quick); edge configurations (last binary "
              "operator also prefix, empty table, nothing optional, 28 priority levels) run on smaller bounds. Deadlock freedom of the tokenizer/parser pair under "
              "every schedule is decided exactly by C12's parser space under the controlled scheduler.",
